@@ -4,7 +4,9 @@ package models
 
 import (
 	"archive/tar"
+
 	"fmt"
+	zz "github.com/goreleaser/nfpm/v2/internal/zzverif"
 	"io"
 	"sort"
 )
@@ -66,12 +68,7 @@ func TarNewWriter(w io.Writer) *tar.Writer {
 	return tw
 }
 
-func put64(b []byte, off int, v int64) {
-	u := uint64(v)
-	for i := 0; i < 8; i++ {
-		b[off+i] = byte(u >> uint(56-8*i))
-	}
-}
+func put64(b []byte, off int, v int64) { zz.Put64(b, off, v) }
 
 func (st *TarState) write(p []byte) error {
 	if st.err != nil {
@@ -144,7 +141,9 @@ func TarWriteHeader(tw *tar.Writer, h *tar.Header) error {
 	copy(blk[offName:], h.Name)
 	put64(blk, offMode, h.Mode)
 	put64(blk, offSize, size)
-	put64(blk, offMTime, h.ModTime.Unix())
+	if !h.ModTime.IsZero() { // the real writer stores a zero time.Time as 0
+		put64(blk, offMTime, h.ModTime.Unix())
+	}
 	blk[offType] = h.Typeflag
 	blk[offFormat] = byte(h.Format)
 	blk[offLinkLen] = byte(len(h.Linkname))
